@@ -98,6 +98,7 @@ func randomScenario(mode string, rng *rand.Rand, k int) scenario {
 		}
 		if rng.Intn(3) == 0 {
 			sc.Partial = true
+			sc.Isolate = len(sc.Byz) > 0 && rng.Intn(2) == 0
 		}
 	}
 	sc.Name = fmt.Sprintf("%s-%d", mode, k)
